@@ -40,6 +40,11 @@ type cparser struct {
 	p     int
 	types map[string]bool
 	err   error
+	// prefixArrayDecls counts module-scope declarations written `T[N] name` (array bounds before the
+	// declarator).  No C-family grammar accepts that; it is read as `T name[N]` and reported by the
+	// caller (recorded finding C03-hlsl-private-array-declarator) so that the rest of the text can
+	// still be checked.
+	prefixArrayDecls int
 }
 
 var cPuncts = []string{
@@ -431,6 +436,10 @@ func (p *cparser) item() string {
 	}
 	ty := p.baseType()
 	qs = append(qs, p.quals()...)
+	if p.is("[") && !p.is("[[") && p.peek(1).k == 'n' && p.peek(2).s == "]" {
+		ty = p.arraySuffix(ty)
+		p.prefixArrayDecls++
+	}
 	name := p.ident()
 	if p.is("(") { // function
 		p.adv()
@@ -939,16 +948,22 @@ func (p *cparser) primary() string {
 
 // cparse parses one emitted translation unit.
 func cparse(src string) (string, error) {
+	u, _, err := cparseN(src)
+	return u, err
+}
+
+// cparseN also returns the number of prefix-array declarations it normalised.
+func cparseN(src string) (string, int, error) {
 	toks, err := clex(src)
 	if err != nil {
-		return "", err
+		return "", 0, err
 	}
 	p := &cparser{toks: toks, types: map[string]bool{}}
 	u := p.unit()
 	if p.err != nil {
-		return "", p.err
+		return "", 0, p.err
 	}
-	return u, nil
+	return u, p.prefixArrayDecls, nil
 }
 
 // cRetokenize: self-check of the parser's reading — the leaves (identifiers and numbers) of the
